@@ -129,7 +129,7 @@ pub(crate) fn comment_style(orig: &str, normalize_comments: bool) -> CommentStyl
             CommentStyle::DoubleSlash
         }
     } else if (orig.starts_with("///") && orig.chars().nth(3).map_or(true, |c| c != '/'))
-        || (orig.starts_with("/**") && !orig.starts_with("/**/"))
+        || (orig.starts_with("/**") && !orig.starts_with("/**/") && !orig.starts_with("/***"))
     {
         CommentStyle::TripleSlash
     } else if orig.starts_with("//!") || orig.starts_with("/*!") {
